@@ -69,6 +69,11 @@ def gen_cases(ctx):
             if ctx.take(i):
                 yield {"op": op, "dest": "fresh", "followup": True, "part": part, "nparts": 2}
             i += 1
+    # removals through a handle that has used its document before
+    for op in ("remove", "clear", "reset"):
+        if ctx.take(i):
+            yield {"op": op, "dest": "fresh", "docloaded": True, "part": 0, "nparts": 1}
+        i += 1
     # the same through a handle opened by id that has not read its state point yet
     for op in ("spset", "assign", "update_sp", "move"):
         for part in range(2):
@@ -132,7 +137,10 @@ def make(case):
         p2.update_cache()
         P1 = signac.Project(os.path.join(root, "p1"))
         P2 = signac.Project(os.path.join(root, "p2"))
-        return {"p1": P1, "p2": P2, "job": P1.open_job(J)}
+        h = P1.open_job(J)
+        if case.get("docloaded"):
+            h.document()  # the handle has used its document before
+        return {"p1": P1, "p2": P2, "job": h}
 
     def op(root, st):
         job = st["job"]
@@ -294,6 +302,15 @@ def judge(ctx, case, plan, res, root, pre, post, new_sp, wit):
                 leftovers = [n for p in ("p1", "p2") for n in now[p] if not model.is_id(n)]
                 wit["diff_vs_pre"] = model.snap_diff(_flat(pre["p1"]), _flat(now["p1"])) + model.snap_diff(_flat(pre["p2"]), _flat(now["p2"]))
                 wit["leftovers"] = leftovers
+                if removal:
+                    # a failed removal may have removed some entries already, but what remains is as it was
+                    nowJ, preJ = now["p1"].get(idJ, {}), pre["p1"].get(idJ, {})
+                    altered = sorted(k for k, v in nowJ.items() if k in preJ and preJ[k] != v)
+                    if altered:
+                        wit["altered"] = altered
+                        ctx.violation("failed-removal-altered-remaining-file",
+                                      "after a propagated error during a removal, a file that is still there no longer has its content", wit)
+                        return True
                 if removal or opname in ("init_fresh", "clone"):
                     # partial removal / partial new job: legitimate as long as clauses (1)-(4) hold
                     ctx.count("partial_state_after_error_accepted")
